@@ -13,7 +13,7 @@ PROPS = {
     "C01": dict(runs=[("dt", 1600, 30000), ("bulk", 12000, 60000)], lean_module="Spade.Properties.C01"),
     "C02": dict(runs=[("dt", 1200, 20000), ("cdt", 1000, 20000), ("small", 1000, 20000), ("bulk", 400, 6000), ("refine", 800, 4000), ("splithull", 800, 8000)], lean_module="Spade.Properties.C02"),
     "C03": dict(runs=[("cdt", 1600, 30000), ("split", 600, 8000), ("refine", 240, 2000)], lean_module="Spade.Properties.C03"),
-    "C04": dict(runs=[("cdt", 2000, 40000), ("bulk", 400, 6000), ("conheavy", 200, 6000), ("split", 400, 8000)], lean_module="Spade.Properties.C04"),
+    "C04": dict(runs=[("cdt", 2000, 40000), ("bulk", 400, 6000), ("conheavy", 200, 6000), ("split", 1000, 10000)], lean_module="Spade.Properties.C04"),
     "C05": dict(runs=[("dt", 1600, 30000), ("cdt", 1000, 15000), ("small", 800, 15000)], lean_module="Spade.Properties.C05"),
     "C06": dict(runs=[("pred", 40000, 2000000), ("locate", 400, 4000), ("quad", 6000, 60000)], lean_module="Spade.Properties.C06"),
     "C07": dict(runs=[("term", 1200, 20000), ("small", 1200, 20000), ("dt", 600, 8000), ("cdt", 600, 8000), ("split", 320, 5000), ("refine", 240, 3000)], lean_module="Spade.Properties.C07"),
